@@ -554,11 +554,27 @@ def has_nonintegral_or_lambda(v):
     return v.k in ("lam", "builtin")
 
 
+def has_nonascii_string(v):
+    if isinstance(v, Raw):
+        return False
+    if v.k == "str":
+        return not v_is_ascii(v)
+    if v.k == "list":
+        return any(has_nonascii_string(x) for x in v.p)
+    if v.k == "rec":
+        return any(has_nonascii_string(x) for _, x in v.p)
+    return False
+
+
 def classify_known(cs):
     """mirror of the Coq exclusions: which open finding class (if any) a BUILTIN case falls into"""
     a = cs.args
     if cs.name in ("len", "head", "tail", "slice") and a and getattr(a[0], "k", "") == "str" and not v_is_ascii(a[0]):
         return "C14-string-bytes"
+    if cs.name in ("sort_by", "group_by", "count_by") and len(a) >= 2:
+        cb = a[1].src()
+        if any(w in cb for w in ("head", "len", "tail")) and has_nonascii_string(a[0]):
+            return "C14-string-bytes"
     if cs.name == "range" and a and all(getattr(x, "k", "") == "num" for x in a) and len(a) in (1, 2):
         lo, hi = (0.0, a[0].p) if len(a) == 1 else (a[0].p, a[1].p)
         if math.isfinite(lo) and math.isfinite(hi) and lo <= hi:
@@ -1095,6 +1111,15 @@ def main(argv):
     except c.BrokenTie as e:
         res.tie_broken(e.what, e.detail)
         model = [None] * len(tomodel)
+    kcases = [cs for cs in tomodel if cs.known and cs.known in known]
+    fixed_model = {}
+    try:
+        fm = c.coq_eval_batch(REQS, "", ["(show_out (run_bi_fixed B_%s [%s]))" % (cs.name, "; ".join(a.coq() for a in cs.args))
+                                         for cs in kcases], "c14f")
+        fixed_model = {id(cs): x for cs, x in zip(kcases, fm)}
+    except c.BrokenTie as e:
+        res.tie_broken(e.what, e.detail)
+    known_current = known_fixed = 0
     mism = []
     validated = 0
     skipped_known = {}
@@ -1109,7 +1134,16 @@ def main(argv):
         if m is None:
             continue
         if cs.known and cs.known in known:
+            # open finding class: the positive theorems claim nothing here, but the implementation must still be
+            # either the code as transcribed or the proposed repair
             skipped_known[cs.known] = skipped_known.get(cs.known, 0) + 1
+            fx = fixed_model.get(id(cs))
+            if r == m:
+                known_current += 1
+            elif fx is not None and r == fx:
+                known_fixed += 1
+            else:
+                mism.append((cs, "%s (or, repaired, %s)" % (m, fx), r))
             continue
         if m == "UNMODELLED" and cs.name in ("sort", "sort_by") and cs.args and getattr(cs.args[0], "k", "") == "list":
             # std's sort is unspecified here (comparator not a total order, more than 20 elements):
@@ -1147,7 +1181,9 @@ def main(argv):
     res.streams["BUILTIN"] = {"cases": len(cases), "modelled": len(tomodel), "validated": validated,
                               "mismatches": len(mism), "model_unmodelled": unmodelled, "sort_unspecified_any_permutation": anyperm,
                               "input_outside_oracle_domain": len(cases) - len(tomodel),
-                              "excluded_open_finding_classes": skipped_known, "tags": tags,
+                              "excluded_open_finding_classes": skipped_known,
+                              "open_class_inputs_matching_current_code_model": known_current,
+                              "open_class_inputs_matching_repaired_model": known_fixed, "tags": tags,
                               "impl_outcomes": outcome_hist}
 
     # ------------------------------------------------------------------ EVAL correspondence
